@@ -9,6 +9,7 @@ CONSTANTS
   FIX_DeferredReset = TRUE
   FIX_LocalRollback = FALSE
   FIX_DeleteAfter = TRUE
+  FIX_ValidateFirst = TRUE
   FIX_NotifyAfterCommit = FALSE
   DEV_HeadsOutsideTx = FALSE
   DEV_SpaceTwoTx = FALSE
